@@ -241,6 +241,16 @@ def _reject_uppercase_header_fields(headers, hdr_validation_flags):
         yield header
 
 
+def _reject_empty_header_names(headers, hdr_validation_flags):
+    """
+    Raises a ProtocolError if any header name is empty.
+    """
+    for header in headers:
+        if not header[0]:
+            raise ProtocolError("Header fields must have a non-empty name.")
+        yield header
+
+
 def _reject_surrounding_whitespace(headers, hdr_validation_flags):
     """
     Raises a ProtocolError if any header name or value is surrounded by
@@ -629,6 +639,9 @@ def validate_outbound_headers(headers, hdr_validation_flags):
     :param headers: The HTTP header set.
     :param hdr_validation_flags: An instance of HeaderValidationFlags.
     """
+    headers = _reject_empty_header_names(
+        headers, hdr_validation_flags
+    )
     headers = _reject_te(
         headers, hdr_validation_flags
     )
